@@ -296,7 +296,11 @@ Section DHole.
   | DSetCollar (c : V3)                       (* well.collar = c *)
   | DSetSurveys (s : list (Q * ang))          (* well.surveys = s *)
   | DQuery (ds : list Q)                      (* well.desurvey(ds) *)
-  | DCall (subs : list hop).                  (* well.add_data({...}) *)
+  | DCall (subs : list hop)                   (* well.add_data({...}) *)
+  (* well.collar["x"] = x : an in-place edit of the array the `collar` getter hands out, not a setter call.
+     refused = the assignment raised (read-only array, after fixes/C18-collar-inplace-readonly.patch); otherwise the
+     stored collar changes and the cached path is NOT reset (open finding collar-inplace-stale) *)
+  | DCollarX (refused : bool) (x : Q).
 
   Inductive dobs :=
   | OQuery (ps : list (option V3))
@@ -313,6 +317,9 @@ Section DHole.
     match op with
     | DSetCollar c => ({| d_collar := c; d_surveys := d_surveys h; d_locs := None; d_data := d_data h |}, None)
     | DSetSurveys s => ({| d_collar := d_collar h; d_surveys := s; d_locs := None; d_data := d_data h |}, None)
+    | DCollarX true _ => (h, None)
+    | DCollarX false x =>
+        ({| d_collar := set_x x (d_collar h); d_surveys := d_surveys h; d_locs := d_locs h; d_data := d_data h |}, None)
     | DQuery ds =>
         let locs := d_locations h in
         ({| d_collar := d_collar h; d_surveys := d_surveys h; d_locs := Some locs; d_data := d_data h |},
@@ -343,7 +350,7 @@ Section DHole.
     {| d_collar := collar; d_surveys := s; d_locs := None; d_data := empty_hole |}.
 End DHole.
 Arguments d_collar {ang}. Arguments d_surveys {ang}. Arguments d_locs {ang}. Arguments d_data {ang}.
-Arguments DSetCollar {ang}. Arguments DSetSurveys {ang}. Arguments DQuery {ang}. Arguments DCall {ang}.
+Arguments DSetCollar {ang}. Arguments DSetSurveys {ang}. Arguments DQuery {ang}. Arguments DCall {ang}. Arguments DCollarX {ang}.
 Arguments dstep {ang}. Arguments drun {ang}. Arguments dstep_spec {ang}. Arguments dfresh {ang}.
 Arguments d_locations {ang}. Arguments d_pos {ang}.
 
